@@ -824,6 +824,15 @@ func strRoundTrips(j *jobCtx) {
 		func(k Name) string { return string(k) }, func(v SK) string { return itoa(int(v)) })
 	kvRoundTrips(j, "int8", []int8{-128, 127, 0, -1, 10, 9}, []string{"a", "b", "-1", ""},
 		func(k int8) string { return itoa(int(k)) }, func(v string) string { return v })
+	// numeric keys and values at the extremes of their types; strings that need escaping on both sides
+	kvRoundTrips(j, "u64", []uint64{0, 1 << 63, math.MaxUint64, 1, 1<<63 + 7, 42}, []uint64{math.MaxUint64, 0, 1 << 63, 5},
+		func(k uint64) string { return fmt.Sprint(k) }, func(v uint64) string { return fmt.Sprint(v) })
+	kvRoundTrips(j, "i64", []int64{math.MinInt64, math.MaxInt64, 0, -1, 1 << 53, -(1 << 53) - 1}, []float64{0, -1.5, 1e21, 1e-7, math.MaxFloat64},
+		func(k int64) string { return fmt.Sprint(k) }, func(v float64) string { return fmt.Sprint(v) })
+	kvRoundTrips(j, "u8", []uint8{0, 255, 128, 127, 1, 200}, []uint8{0, 255, 128, 7},
+		func(k uint8) string { return fmt.Sprint(k) }, func(v uint8) string { return fmt.Sprint(v) })
+	kvRoundTrips(j, "estr", []string{"", "a\"b", "<tag>&", "line\nbreak", "\u2028x", "\\back", "é€😀", "null"}, []string{"\"", "</script>", "\t", "\u2029", "", "{}"},
+		func(k string) string { return k }, func(v string) string { return v })
 }
 
 func kvRoundTrips[K cmp.Ordered, W cmp.Ordered](j *jobCtx, tag string, keys []K, vals []W, kstr func(K) string, wstr func(W) string) {
